@@ -8,7 +8,10 @@ base-class chain is closed):
   in source order, the statements that matter for serialisation (`super().__init__(…)`,
   `self._keys = [...]`, `self._keys += list(meta.keys())`, `self._keys.remove(..)`, the `setattr` loop);
   own `to_dict` as a list of steps (`{k: getattr(self, k) for k in self._keys}`, `super().to_dict()`,
-  dict literal, `.update({...})`, `d[k] = …`, `del d[k]`); own `@property` / `@x.setter` names;
+  dict literal, `.update({...})`, `d[k] = …`, `del d[k]`) — every dumped value must be the PLAIN attribute read
+  `self.k` / `self._k` (anything computed from it, `np.round(self.bounds, 3)`, `self.id.lower()`, is `.unknown`); the one
+  accepted replacement of a dumped value is ADevice's `if 'constraints' in d: d['constraints'] = self._constraints`;
+  own `@property` / `@x.setter` names;
 * from the imported class: `inspect.signature(cls)`, the MRO, `inspect.isabstract`, and the run-time
   property/setter sets (cross-checked against the AST here; the signature cross-check is a Lean theorem).
 
@@ -131,8 +134,15 @@ def init_info(fdef, fn):
   return {'params': params, 'varkw': varkw, 'ops': ops}
 
 
+def _plain_read(k, v):
+  """the dumped value of key `k` is the plain attribute read `self.k` / `self._k` — nothing computed from it
+  (`np.round(self.bounds, 3)`, `self.id.lower()`, arithmetic … change the VALUE and are outside the understood subset)."""
+  return (isinstance(v, ast.Attribute) and isinstance(v.value, ast.Name) and v.value.id == 'self' and v.attr in (k, '_' + k))
+
+
 def _dict_keys(e):
-  if isinstance(e, ast.Dict) and all(isinstance(k, ast.Constant) and isinstance(k.value, str) for k in e.keys):
+  if (isinstance(e, ast.Dict) and all(isinstance(k, ast.Constant) and isinstance(k.value, str) for k in e.keys)
+      and all(_plain_read(k.value, v) for k, v in zip(e.keys, e.values))):
     return [k.value for k in e.keys]
   return None
 
@@ -145,7 +155,7 @@ def _is_keys_comp(e):
           and ast.unparse(e.value) == 'getattr(self, %s)' % e.key.id)
 
 
-def dump_info(fdef, fn):
+def dump_info(fdef, fn, cls_name=''):
   """`to_dict` body -> steps over ONE dict variable (or a directly returned expression)."""
   ops, var, returned = [], None, False
 
@@ -177,22 +187,27 @@ def dump_info(fdef, fn):
         m, args = st.value.func.attr, st.value.args
         if m == 'update' and len(args) == 1 and not st.value.keywords and _dict_keys(args[0]) is not None:
           ops.append(('update', _dict_keys(args[0]))); continue
-        if m == 'update' and not args and all(k.arg for k in st.value.keywords):
+        if m == 'update' and not args and all(k.arg and _plain_read(k.arg, k.value) for k in st.value.keywords):
           ops.append(('update', [k.arg for k in st.value.keywords])); continue
         if m == 'pop' and len(args) >= 1 and isinstance(args[0], ast.Constant) and isinstance(args[0].value, str):
           ops.append(('remove', [args[0].value])); continue
       # d['k'] = …
       if (isinstance(st, ast.Assign) and len(st.targets) == 1 and isinstance(st.targets[0], ast.Subscript)
           and isinstance(st.targets[0].value, ast.Name) and st.targets[0].value.id == var
-          and isinstance(st.targets[0].slice, ast.Constant) and isinstance(st.targets[0].slice.value, str)):
+          and isinstance(st.targets[0].slice, ast.Constant) and isinstance(st.targets[0].slice.value, str)
+          and _plain_read(st.targets[0].slice.value, st.value)):
         ops.append(('update', [st.targets[0].slice.value])); continue
-      # if 'k' in d: d['k'] = …      (replaces a value; the key set is unchanged)
-      if (isinstance(st, ast.If) and not st.orelse and isinstance(st.test, ast.Compare) and len(st.test.ops) == 1
+      # if 'constraints' in d: d['constraints'] = self._constraints   — the ONE known site where a dumped value is
+      # replaced (ADevice: the getter returns cbound closures + user list, the dump must carry the stored user list).
+      # Any other replacement of a dumped value is `.unknown`.
+      if (cls_name == 'ADevice' and isinstance(st, ast.If) and not st.orelse and isinstance(st.test, ast.Compare) and len(st.test.ops) == 1
           and isinstance(st.test.ops[0], ast.In) and isinstance(st.test.left, ast.Constant) and isinstance(st.test.left.value, str)
           and isinstance(st.test.comparators[0], ast.Name) and st.test.comparators[0].id == var
           and all(isinstance(b, ast.Assign) and len(b.targets) == 1 and isinstance(b.targets[0], ast.Subscript)
                   and isinstance(b.targets[0].value, ast.Name) and b.targets[0].value.id == var
-                  and isinstance(b.targets[0].slice, ast.Constant) and b.targets[0].slice.value == st.test.left.value for b in st.body)):
+                  and isinstance(b.targets[0].slice, ast.Constant) and b.targets[0].slice.value == st.test.left.value
+                  and ast.unparse(b.value) == 'self._constraints' for b in st.body)
+          and st.test.left.value == 'constraints' and len(st.body) == 1):
         ops.append(('overwrite', [st.test.left.value])); continue
       # del d['k']
       if (isinstance(st, ast.Delete) and all(isinstance(t, ast.Subscript) and isinstance(t.value, ast.Name) and t.value.id == var
@@ -218,7 +233,7 @@ def class_ast(cdef, fn):
     if st.name == '__init__':
       init = init_info(st, fn)
     elif st.name == 'to_dict' and not _is_abstract_stub(st):
-      dump = dump_info(st, fn)
+      dump = dump_info(st, fn, cdef.name)
     if 'property' in decs and st.name not in props:
       props.append(st.name)
     for d in decs:
